@@ -94,7 +94,7 @@ def class_cells(labels):
                 f = getattr(v, "__func__", v)
                 if isinstance(f, types.FunctionType):       # mutable default arguments are hidden shared state too
                     for dv in (f.__defaults__ or ()) + tuple((f.__kwdefaults__ or {}).values()):
-                        if isinstance(dv, (list, dict, set, bytearray)) and id(dv) not in out:
+                        if (isinstance(dv, (list, dict, set, bytearray)) or (is_rv_obj(dv) and not isinstance(dv, skip))) and id(dv) not in out:
                             out.add(id(dv))
                             labels.setdefault(id(dv), "class:%s.%s(default argument)" % (cls.__name__, k))
                             CELL_OBJS[id(dv)] = dv
@@ -265,7 +265,8 @@ def run(ctx):
                                      "state_before": sb + so, "state_after": sa + so1, "bytes_before": bb + bo, "bytes_after": ba + bo1,
                                      "diff": first_diff(pj0, pj1) or first_diff(pjo0, pjo1)})
                       ctx.count_case(("mutate", t, how, tag, kind, json.dumps(pth)))
-                  events.append(heap_event("mutations %s:%s %s" % (how, t, tag), [("A", a), ("B", b), ("C", other), ("fresh", cl[t]())]))
+                  events.append(heap_event("mutations %s:%s %s" % (how, t, tag),
+                                           [("A", a), ("B", b), ("C", other), ("fresh1", cl[t]()), ("fresh2", cl[t]())]))
               traces.append({"id": "%s/%s" % (t, how), "events": events})
           except Exception as e:
             raised("%s/%s!" % (t, how), "%s %s" % (how, t), e, events)
